@@ -174,6 +174,17 @@ pub fn known_trigger(w: &World, _cfg: &RunCfg, node: usize, g: usize, wc: &Winni
     if inactive && deliveries.iter().any(|r| r.outcome.contains("evicted")) {
         return Some("KF-C01-4".into());
     }
+    // KF-C01-7 (unrestricted regime only): the winning commit was first handed to the node while
+    // it was still below the commit's epoch (a commit ahead of its predecessor): it cannot be
+    // decrypted yet, is recorded as Failed, and every later hand-over is answered from that record
+    let failed = |r: &&StepRecord| is_refusal(&r.class) || r.class == "err";
+    let early = |r: &&StepRecord| r.pre_state.get(&g).map(|s| s.0 < pe.epoch).unwrap_or(false);
+    if let Some(last_early) = deliveries.iter().rposition(|r| early(r) && failed(r)) {
+        // (a failure on another branch is re-opened by the rollback; one below the epoch is not)
+        if deliveries.iter().skip(last_early + 1).all(|r| failed(&r)) {
+            return Some("KF-C01-7".into());
+        }
+    }
     None
 }
 
@@ -314,12 +325,13 @@ pub fn spec() -> CheckSpec {
     CheckSpec {
         id: "C01",
         level: "exploration",
-        rule: "seeded swarm runs of the simulated world (2-6 members + late joiners, fork bursts of 2-4 sibling commits with equal/increasing/tied timestamps, concurrent traffic, duplicates, reordering, both own-commit policies); a run is non-trivial when it contains >=1 fork with >=2 published siblings and >=1 rollback; distinct = distinct delivery signature (per-node sequence of (event, duplicate?, epoch relation, result class) + fault positions)",
+        rule: "seeded swarm runs of the simulated world (2-6 members + late joiners, fork bursts of 2-4 sibling commits with equal/increasing/tied timestamps, concurrent traffic, duplicates, reordering, both own-commit policies; variants *-causal hand an event over only once the receiver has reached its epoch, variant mem-unrestricted hands events over in any order, commits ahead of their predecessors included); a run is non-trivial when it contains >=1 fork with >=2 published siblings and >=1 rollback; distinct = distinct delivery signature (per-node sequence of (event, duplicate?, epoch relation, result class) + fault positions)",
         variants: vec![
             Variant { name: "mem-causal", profile: Profile { backend: BackendMix::Memory, ..base.clone() }, runs_quick: 400, runs_thorough: 20000, oracle: mk, guarded: false, configure_gen: None, post: None, custom: None },
             Variant { name: "sqlite-causal", profile: Profile { backend: BackendMix::Mixed, ..base.clone() }, runs_quick: 120, runs_thorough: 6000, oracle: mk, guarded: false, configure_gen: None, post: None, custom: None },
             Variant { name: "sqlite-causal-guarded", profile: Profile { backend: BackendMix::Mixed, guards: guards.clone(), allow_immediate: false, ..base.clone() }, runs_quick: 120, runs_thorough: 6000, oracle: mk, guarded: true, configure_gen: None, post: None, custom: None },
             Variant { name: "mem-causal-guarded", profile: Profile { backend: BackendMix::Memory, guards: guards.clone(), allow_immediate: false, ..base.clone() }, runs_quick: 400, runs_thorough: 20000, oracle: mk, guarded: true, configure_gen: None, post: None, custom: None },
+            Variant { name: "mem-unrestricted", profile: Profile { backend: BackendMix::Memory, regime: Regime::Unrestricted, ..base.clone() }, runs_quick: 200, runs_thorough: 10000, oracle: mk, guarded: false, configure_gen: None, post: None, custom: None },
         ],
         assumptions: vec!["honest members only", "clock skew within max_future_skew_secs"],
         real: super::REAL.to_vec(),
